@@ -48,8 +48,12 @@ func (v valueReader) Read(r io.Reader) ([]byte, error) {
 	if err != nil {
 		return nil, fmt.Errorf("read signature: %s", err)
 	}
-	reader, err := MakeReader(sig)
-	if err != nil {
+	var reader TypeReader
+	if sig == "r" {
+		// raw data is not part of the signature grammar, but it is
+		// a valid dynamic value: a length prefixed byte array.
+		reader = stringReader{}
+	} else if reader, err = MakeReader(sig); err != nil {
 		return nil, err
 	}
 	data, err := reader.Read(r)
